@@ -368,7 +368,20 @@ type vC11CR struct {
 
 func vC11Addr(kind byte, ch uint64) []byte { return []byte{kind, byte(ch)} }
 
+// vC11ResultHook (used by the C13 reader-result sweep) may rewrite an answer before it is decoded into the caller's
+// value; an answer that then no longer fits the caller's type is what a real contract reader reports as an error.
+var vC11ResultHook func(js string) string
+
 func vC11JSON(ret any, js string) error {
+	if vC11ResultHook != nil {
+		js2 := vC11ResultHook(js)
+		if js2 != js {
+			if err := json.Unmarshal([]byte(js2), ret); err != nil {
+				return vErr
+			}
+			return nil
+		}
+	}
 	if err := json.Unmarshal([]byte(js), ret); err != nil {
 		panic(fmt.Sprintf("verif fake reader: cannot fill %T from %s: %v", ret, js, err))
 	}
@@ -567,8 +580,10 @@ func (r *vC11CR) QueryKey(ctx context.Context, contract cctypes.BoundContract, f
 			for _, rp := range w.Reports[s] {
 				v := newData()
 				root := cciptypes.Bytes32{rp.Root}
-				vC11JSON(v.Interface(), fmt.Sprintf(`{"MerkleRoots":[{"SourceChainSelector":%d,"MinSeqNr":%d,"MaxSeqNr":%d,"MerkleRoot":"%s","OnRampAddress":%s}],"PriceUpdates":{}}`,
-					s, rp.Start, rp.End, root.String(), vC11B64(vC11Addr(1, s))))
+				if err := vC11JSON(v.Interface(), fmt.Sprintf(`{"MerkleRoots":[{"SourceChainSelector":%d,"MinSeqNr":%d,"MaxSeqNr":%d,"MerkleRoot":"%s","OnRampAddress":%s}],"PriceUpdates":{}}`,
+					s, rp.Start, rp.End, root.String(), vC11B64(vC11Addr(1, s)))); err != nil {
+					return nil, err
+				}
 				out = append(out, cctypes.Sequence{Head: cctypes.Head{Height: "5", Timestamp: ts}, Data: v.Interface()})
 			}
 		}
